@@ -53,5 +53,6 @@ Example C12_witness :
   let e := Env 0 1 0 0 None None (fun k => Sel 0 (Z.of_nat k * 100 - 100) 0 false 99 1) in
   env_ok c h e = true /\
   retry c h e = Run ([31%N], 0%N) 301
-    [ECall 0 0 1; ECall 1 100 101; EHook 1 5; ECall 2 200 201; EHook 2 10; ECall 3 300 301].
+    [ECall 0 0 1; ECall 1 100 101; EHook 1 5; ECall 2 200 201; EHook 2 10; ECall 3 300 301]
+    [WItem 1 5 5 1 1 100 false; WItem 2 10 10 101 101 200 false; WItem 3 15 15 201 201 300 false].
 Proof. split; vm_compute; reflexivity. Qed.
